@@ -124,7 +124,7 @@ def run(ctx, report: Report) -> None:
     report.analysed['regex_variants'] = len(analysed)
 
     # ---- R2 ------------------------------------------------------------------------------------------
-    r2 = report.rule('C07-R2', 'token patterns consume at least one character and the token loop advances', floor=5)
+    r2 = report.rule('C07-R2', 'token patterns consume at least one character and the token loop advances', floor=3)
     tokens = [r for r in inv.regexes if r.kind in ('token', 'special-token')]
     for r in tokens:
         s = rx.System()
@@ -167,7 +167,7 @@ def run(ctx, report: Report) -> None:
                 r2.note(f'{mod.where(call)}: matcher {unparse(recv)} of the token loop is not recognisably drawn from css_tokens')
 
     # ---- R3 ------------------------------------------------------------------------------------------
-    r3 = report.rule('C07-R3', 'every regex application resolves to an inventoried regex', floor=6)
+    r3 = report.rule('C07-R3', 'every regex application resolves to an inventoried regex', floor=4)
     for where, func, text in inv.unresolved:
         r3.violation(f'{func} {text}', where, f're.compile of a pattern that is not a folded constant or an escaped '
                                               f'template: {text}')
@@ -285,7 +285,7 @@ def run(ctx, report: Report) -> None:
     freeze_cost_table(ctx, r4)
 
     # ---- R5 (texts compiled by interpretation, bounded) -----------------------------------------------------------------
-    r5 = report.rule('C07-R5', 'work of compiling grows polynomially with the input, family by family (bounded: three sizes per family)', floor=6)
+    r5 = report.rule('C07-R5', 'work of compiling grows polynomially with the input, family by family (bounded: three sizes per family)', floor=4)
     from .e2etab import scaling_table
     scaling_table(ctx, r5, sizes=(6, 12, 24) if ctx.tier == 'quick' else (8, 16, 32, 64))
 
